@@ -75,8 +75,9 @@ class TaskHandler:
     def flush(self):
         """Await completion of all pending tasks."""
         self._open = False
-        if len(self._pending) > 0:
-            for key in dict(self._pending).keys():
-                get = self._pending.get(key)
-                if get is not None:
-                    self._pending[key].result(10)
+        for future in list(self._pending.values()):
+            try:
+                future.result(10)
+            except BaseException:
+                # the failure of a task is reported by the task callback, we only need to wait for it
+                logging.debug("Task %s did not complete successfully", future)
